@@ -11,6 +11,8 @@ import traceback
 
 import z3
 
+z3.Z3_toggle_warning_messages(False)  # rejected trigger patterns fall back to solver-chosen ones (contracts.common.forall)
+
 from . import extract
 from . import stmts as _stmts  # noqa: F401  (grafts statement methods onto Executor)
 from .engine import Executor
